@@ -159,6 +159,7 @@ func (s *netSim) clientTx(t NetTx) {
 	case defFeeShort:
 		tx.NetworkFee--
 		sign()
+		s.defectFees[tx.Hash()] = [2]int64{bc.FeePerByte(), bc.GetBaseExecFee()}
 	case defHighPriorityNoCommittee:
 		tx.Attributes = append(tx.Attributes, transaction.Attribute{Type: transaction.HighPriority})
 		tx.NetworkFee = 0
